@@ -176,11 +176,13 @@ Definition mk_buf (spec : nat * N) : bytes := repeat (snd spec) (fst spec).
 
 Definition is_compound (m : member) : bool := match m with MCompound _ => true | _ => false end.
 
-(* parse what was written into an exact-size buffer *)
-Definition obs_roundtrip (m : member) : list kv :=
+(* parse what was written into an exact-size buffer, prefilled like the first buffer of the case
+   (zero when the case names none): a writer that leaves a byte of its packet unwritten, or merges
+   with what was there, then fails the round trip too *)
+Definition obs_roundtrip (m : member) (fill : N) : list kv :=
   match m_calc m with
   | Ok n =>
-      match m_write_into m (repeat 0%N n) with
+      match m_write_into m (repeat fill n) with
       | (Ok w, img) =>
           match m with
           | MCompound _ => map (fun p => (("rt." ++ fst p)%string, snd p)) (run_parse ECompound (firstn w img))
@@ -196,7 +198,7 @@ Definition obs_roundtrip (m : member) : list kv :=
 Definition run_build (m : member) (bufs : list (nat * N)) : list kv :=
   [("size", obs_wres OI (m_calc m)); ("get_padding", obs_optN (m_padding m));
    ("writes", OL (map (fun b => obs_write (m_write_into m (mk_buf b))) bufs))]
-  ++ obs_roundtrip m.
+  ++ obs_roundtrip m (match bufs with b :: _ => snd b | [] => 0%N end).
 
 Definition run_build_chunk (c : chunk_cfg) (bufs : list (nat * N)) : list kv :=
   [("writes", OL (map (fun b => obs_write (chunk_write_into c (mk_buf b))) bufs))].
